@@ -42,6 +42,113 @@ def carg(fn):
     return None
 
 
+class CursorSem:
+    """Branch conditions of one segment over o = bufp - buf (64-bit signed, pointers as offsets from buf), BDD-decided.
+    Loads of bufp separated by a call that may write bufp get different variables; each carries the cursor invariant."""
+
+    def __init__(self, p, m, fn, ca, buf_off, buf_sz, bufp_ptr, writers):
+        from ..domains.bdd import BDD, BV
+        from ..domains.bvexec import expr_bv, Top
+        self.B = B = BDD()
+        self.bv = BV(B)
+        self.expr_bv, self.Top = expr_bv, Top
+        self.p, self.ca, self.buf_off, self.buf_sz, self.bufp_ptr = p, ca, buf_off, buf_sz, bufp_ptr
+        self.vars = {}
+        # epoch of every load of bufp: number of possibly-writing calls before it
+        epoch = 0
+        self.epoch_of = {}
+        for e in p.events:
+            if e.kind == "call" and (not isinstance(e.callee, str) or e.callee in writers):
+                epoch += 1
+            if e.kind == "load" and e.ptr == bufp_ptr and e.val is not None:
+                self.epoch_of.setdefault(e.val, epoch)
+        self.problem = None
+        self.pc = 1
+        for c, taken, inst in p.conds:
+            if not paths.contains(c, lambda x: x[0] == "ld" and x[1] == bufp_ptr):
+                continue
+            v = self.conv(c)
+            if v is None:
+                self.problem = "condition %s on the cursor is outside the modelled fragment" % fmt(c)[:90]
+                continue
+            bit = 0
+            for x in v:
+                bit = B.OR(bit, x)
+            self.pc = B.AND(self.pc, bit if taken else B.NOT(bit))
+
+    def var(self, ld):
+        ep = self.epoch_of.get(ld, 0)
+        if ep not in self.vars:
+            base = 64 * len(self.vars)
+            v = [self.B.var(base + i) for i in range(64)]
+            inv = self.B.AND(self.B.NOT(self.bv.slt(v, self.bv.const(0, 64))), self.bv.slt(v, self.bv.const(self.buf_sz, 64)))
+            self.vars[ep] = (v, inv, base)
+            self.pc = self.B.AND(self.pc, inv)
+        return self.vars[ep][0]
+
+    def off_of(self, x):
+        bv = self.bv
+        if x[0] == "cast" and x[1] in ("bitcast", "ptrtoint", "inttoptr"):
+            return self.off_of(x[4])
+        if x[0] == "ld" and x[1] == self.bufp_ptr:
+            return self.var(x)
+        if x[0] == "arg" and x[1] == self.ca:
+            return bv.const((-self.buf_off) & ((1 << 64) - 1), 64)
+        if x[0] == "p":
+            base = self.off_of(x[1])
+            if base is None:
+                return None
+            v = bv.add(base, bv.const(x[2] & ((1 << 64) - 1), 64))
+            for ve, sc in x[3]:
+                t = self.conv(ve)
+                if t is None:
+                    return None
+                t = bv.sext(t, 64) if len(t) < 64 else t
+                v = bv.add(v, bv.mul(t, bv.const(sc, 64)))
+            return v
+        return None
+
+    def atom(self, x):
+        if x[0] == "cast" and x[1] == "ptrtoint":
+            return self.off_of(x[4])
+        if x[0] in ("ld", "p"):
+            o = self.off_of(x)
+            if o is not None:
+                return o
+        if x[0] == "icmp":
+            a, b = self.off_of(x[2]), self.off_of(x[3])
+            if a is not None and b is not None:
+                bv, BB = self.bv, self.B
+                pr = {"ule": "sle", "ult": "slt", "ugt": "sgt", "uge": "sge"}.get(x[1], x[1])
+                return [{"eq": lambda: bv.eq(a, b), "ne": lambda: BB.NOT(bv.eq(a, b)), "slt": lambda: bv.slt(a, b),
+                         "sgt": lambda: bv.slt(b, a), "sle": lambda: BB.NOT(bv.slt(b, a)), "sge": lambda: BB.NOT(bv.slt(a, b))}[pr]()]
+        return None
+
+    def conv(self, x):
+        try:
+            return self.expr_bv(x, self.bv, self.atom)
+        except (self.Top, KeyError, IndexError, TypeError):
+            return None
+
+    def offset_within(self, ld, d, lo, hi):
+        """Do the segment's conditions imply lo <= (ld - buf) + d <= hi ?  -> (True, None) | (False, witness o) | (None, why)"""
+        if self.problem:
+            return None, self.problem
+        bv, B = self.bv, self.B
+        o = self.var(ld)
+        t = bv.add(o, bv.const(d & ((1 << 64) - 1), 64))
+        ok = B.AND(B.NOT(bv.slt(t, bv.const(lo, 64))), B.NOT(bv.slt(bv.const(hi, 64), t)))
+        bad = B.AND(self.pc, B.NOT(ok))
+        if bad == 0:
+            return True, None
+        asg = B.sat_one(bad) or {}
+        base = self.vars[self.epoch_of.get(ld, 0)][2]
+        val = sum((1 << i) for i in range(64) if asg.get(base + i))
+        if val >> 63:
+            val -= 1 << 64
+        return False, val
+
+
 def check_k1_k2(chk, m, cfg, L, scr_lo, scr_hi):
     fn = m.fn("console_run")
     chk.note_fn(fn)
@@ -51,70 +158,64 @@ def check_k1_k2(chk, m, cfg, L, scr_lo, scr_hi):
     segs = paths.enumerate_segments(fn, m)
     n_store = n_dec = 0
     tokenise_segments = []
+    # functions that (transitively) write console_t.bufp: a load of bufp after a call of one of them is a new value
+    prog = flow.Program([m])
+    direct_w = set(f.name for f in m.defined_functions()
+                   if any(a.struct in ("console", "console_t") and a.writes and (a.field == "bufp" or a.kind in ("memset", "memcpy_dst"))
+                          for a in flow.accesses(f, m)))
+    writers = set(f.name for f in m.defined_functions() if any(g.name in direct_w for g in prog.closure(f)))
     for start, p in segs:
         sid = "console_run[%s] %s..%s" % (cfg, start.lstrip("%"), (p.blocks[-1] if p.blocks else "").lstrip("%"))
         ev = p.events
         is_bufp_ld = lambda x: x[0] == "ld" and x[1] == bufp_ptr
-        # stores through the cursor
+        # stores through the cursor, decided semantically: with o = bufp - buf and the cursor invariant 0 <= o <= size-1 at the
+        # start of the segment, the branch conditions of the segment must imply that the byte written is inside the line
+        sem = CursorSem(p, m, fn, ca, buf_off, buf_sz, bufp_ptr, writers)
         for k, e in enumerate(ev):
             if e.kind == "store" and e.ptr is not None:
                 root, off, var = ptr_parts(e.ptr)
                 if is_bufp_ld(root):
                     n_store += 1
-                    # the guard
-                    K = None
-                    for c, taken, inst in p.conds:
-                        cc = strip_casts(c)
-                        if cc[0] == "icmp" and is_bufp_ld(cc[2]) and ptr_parts(cc[3])[0] == ("arg", ca) and not ptr_parts(cc[3])[2]:
-                            lim = ptr_parts(cc[3])[1] - buf_off
-                            if (cc[1] == "uge" and not taken) or (cc[1] == "ult" and taken):
-                                K = lim             # bufp < buf + lim
-                            elif (cc[1] == "ugt" and not taken) or (cc[1] == "ule" and taken):
-                                K = lim + 1
-                    above_buf = False
-                    for c, taken, inst in p.conds:
-                        cc = strip_casts(c)
-                        if cc[0] == "icmp" and is_bufp_ld(cc[2]) and cc[3] == paths.mkptr(("arg", ca), buf_off):
-                            if (cc[1] == "ugt" and taken) or (cc[1] == "ule" and not taken):
-                                above_buf = True
                     if var:
                         chk.unknown("K1.guarded-store", sid, "store through bufp with a variable offset", e.inst.loc)
-                    elif off < 0:
-                        # cursor invariant buf <= bufp <= buf+SCRATCH-1 gives the upper bound; the lower bound needs bufp > buf
-                        ok = off == -1 and above_buf
-                        chk.ob("K1.guarded-store", sid, ok,
-                               "store at bufp%+d: needs bufp > buf on this path (%s)" % (off, "tested" if above_buf else "not tested"),
-                               e.inst.loc, fn.name)
-                    elif off == 0 and e.val[0] == "c" and e.val[2] == 0:
-                        chk.ob("K1.guarded-store", sid, True,
-                               "a NUL stored at the cursor itself is inside the buffer by the cursor invariant (bufp <= buf+%d) and "
-                               "cannot remove the terminator" % (buf_sz - 1), e.inst.loc, fn.name)
-                    elif K is None:
-                        chk.ob("K1.guarded-store", sid, False,
-                               "a character is stored through bufp without a test of bufp against the end of the line buffer on this path",
-                               e.inst.loc, fn.name)
+                        continue
+                    is_nul = e.val[0] == "c" and e.val[2] == 0
+                    hi = buf_sz - 1 if is_nul else buf_sz - 2
+                    verdict, wit = sem.offset_within(root, off, 0, hi)
+                    what = "NUL" if is_nul else "a character"
+                    if verdict is None:
+                        chk.unknown("K1.guarded-store", sid, wit, e.inst.loc)
+                    elif verdict:
+                        chk.ob("K1.guarded-store", sid + " bufp%+d" % off, True,
+                               "store of %s at bufp%+d stays within buf[0..%d] under the segment's conditions and the cursor invariant"
+                               % (what, off, hi), e.inst.loc, fn.name)
                     else:
-                        ok = K + off <= buf_sz - 1
-                        chk.ob("K1.guarded-store", sid, ok,
-                               "store at bufp%+d guarded by bufp < buf+%d; buf has %d bytes, so the last byte written is buf[%d]%s"
-                               % (off, K, buf_sz, K - 1 + off, "" if ok else
-                                  ": buf[%d] must stay NUL (it is the only terminator of a full line; strlen in the tokeniser "
-                                  "would run off the buffer)" % (buf_sz - 1)), e.inst.loc, fn.name)
+                        chk.ob("K1.guarded-store", sid + " bufp%+d" % off, False,
+                               "store of %s at bufp%+d can fall outside buf[0..%d]: e.g. with bufp - buf == %s the byte written is buf[%s]%s"
+                               % (what, off, hi, wit, wit + off, "" if is_nul else
+                                  "; buf[%d] must stay NUL (the only terminator of a full line: strlen in the tokeniser would run off "
+                                  "the buffer)" % (buf_sz - 1)), e.inst.loc, fn.name)
             if e.kind == "store" and e.ptr == bufp_ptr:
                 v = e.val
                 root, off, var = ptr_parts(v)
                 if is_bufp_ld(root) and off == 1 and not var:
                     st = [x for x in ev if x.kind == "store" and x.ptr is not None and ptr_parts(x.ptr)[0] == root]
                     chk.ob("K1.cursor-update", sid + " +1", bool(st), "bufp++ belongs to a store through the old bufp", e.inst.loc, fn.name)
+                    verdict, wit = sem.offset_within(root, 1, 0, buf_sz - 1)
+                    if verdict is None:
+                        chk.unknown("K1.cursor-update", sid, wit, e.inst.loc)
+                    else:
+                        chk.ob("K1.cursor-update", sid + " +1 range", verdict, "bufp + 1 <= buf + %d on this segment" % (buf_sz - 1)
+                               if verdict else "bufp++ can move the cursor beyond buf + %d (bufp - buf == %s before)" % (buf_sz - 1, wit),
+                               e.inst.loc, fn.name)
                 elif is_bufp_ld(root) and off == -1 and not var:
                     n_dec += 1
-                    g = False
-                    for c, taken, inst in p.conds:
-                        cc = strip_casts(c)
-                        if cc[0] == "icmp" and is_bufp_ld(cc[2]) and cc[3] == paths.mkptr(("arg", ca), buf_off):
-                            if (cc[1] == "ugt" and taken) or (cc[1] == "ule" and not taken) or (cc[1] == "ne" and taken):
-                                g = True
-                    chk.ob("K1.cursor-update", sid + " -1", g, "bufp-- only when bufp > buf", e.inst.loc, fn.name)
+                    verdict, wit = sem.offset_within(root, -1, 0, buf_sz - 1)
+                    if verdict is None:
+                        chk.unknown("K1.cursor-update", sid, wit, e.inst.loc)
+                    else:
+                        chk.ob("K1.cursor-update", sid + " -1", verdict, "bufp-- only when bufp > buf" +
+                               ("" if verdict else " (possible with bufp - buf == %s)" % wit), e.inst.loc, fn.name)
                     # K2: the vacated byte must be zeroed
                     zero = [x for x in ev if x.kind == "store" and x.ptr is not None and ptr_parts(x.ptr)[0] == root
                             and ptr_parts(x.ptr)[1] == -1 and x.val[0] == "c" and x.val[2] == 0]
